@@ -227,6 +227,8 @@ def mon_c14(k, domain, bind_port=None, wildcard=False):
         dl = dl[1:]
     pend = {}       # (src, id, labels, qtype) -> count of unanswered deliveries
     held = {}       # userid -> {(labels_lower, qtype): count}
+    held_since = {} # (userid, held key) -> time the (first copy of the) query arrived
+    lazy_req = {}   # userid -> False from the version answer that hands out the slot, True once lazy mode was asked for in it
     skip = fwd_causes(k, bind_port)
     triggers = set()
     last_cause_kind = {}
@@ -257,10 +259,15 @@ def mon_c14(k, domain, bind_port=None, wildcard=False):
             ql = [l.lower() for l in labels]
             if len(ql) > len(dl) and ql[len(ql) - len(dl):] == dl and m.id != 0:
                 text = b"".join(labels[:len(labels) - len(dl)])
+                if text[:1] in (b"o", b"O") and len(text) >= 3 and text[2:3] in (b"l", b"L"):
+                    # somebody asked for lazy mode in that slot (whether or not the server granted it)
+                    lazy_req[proto.B32.find(text[1:2].lower())] = True
                 tk = _tunnel_kind(labels[0], text)
                 if tk:
                     hk = (tuple(ql), t)
                     h = held.setdefault(tk[1], {})
+                    if hk not in h:
+                        held_since[(tk[1], hk)] = ev[0]
                     h.setdefault(hk, []).append(key)
         elif kind == "send":
             d = kw["data"]
@@ -289,6 +296,7 @@ def mon_c14(k, domain, bind_port=None, wildcard=False):
                     vp = proto.extract_payload(m)
                     if vp[:4] == b"VACK" and len(vp) >= 9:
                         held.pop(vp[8], None)
+                        lazy_req[vp[8]] = False          # a new session starts in immediate mode
                 except (proto.ParseError, proto.Undecodable, IndexError, struct.error):
                     pass
             ql = tuple(l.lower() for l in labels)
@@ -297,6 +305,7 @@ def mon_c14(k, domain, bind_port=None, wildcard=False):
             for uid, h in held.items():
                 if (ql, t) in h:
                     del h[(ql, t)]
+                    held_since.pop((uid, (ql, t)), None)
                     break
             ck = kw.get("cause")
             triggers.add("timer" if ck is None else ("tun" if isinstance(ck, tuple) else "query"))
@@ -322,6 +331,19 @@ def mon_c14(k, domain, bind_port=None, wildcard=False):
                     viol.append(("C14:more-than-two-held", "session %d has %d distinct unanswered ping/data queries at a quiescent point" % (uid, n),
                                  {"time_us": ev[0], "held": [repr(x[0][0][:16]) for x in list(h)[:5]]}))
                     h.clear()
+                elif n and lazy_req.get(uid) is False:
+                    # the session was handed its slot in this log and nobody ever asked for lazy mode in it: it is in immediate
+                    # mode, where a ping/data query is answered when it arrives or (the acknowledgement of a packet's last
+                    # fragment) "after just a tiny little while" - 20 ms; half a virtual second is far beyond that
+                    stats["c14_immediate_mode_waits_with_held"] = stats.get("c14_immediate_mode_waits_with_held", 0) + 1
+                    old = [hk for hk in h if held_since.get((uid, hk), ev[0]) <= ev[0] - 500000]
+                    if old:
+                        viol.append(("C14:immediate-mode-query-held", "session %d never asked for lazy mode, yet %d ping/data quer%s been unanswered for more than 0.5 s (virtual) at a quiescent point"
+                                     % (uid, len(old), "y has" if len(old) == 1 else "ies have"), {"time_us": ev[0], "held": [repr(x[0][0][:16]) for x in old[:5]]}))
+                        h.clear()
+            for uid, lr in lazy_req.items():
+                if lr is False:
+                    stats["c14_immediate_mode_waits_checked"] = stats.get("c14_immediate_mode_waits_checked", 0) + 1
     stats["c14_triggers"] = len(triggers)
     return viol, stats, triggers
 
